@@ -12,6 +12,9 @@ type Clock struct {
 }
 
 func (c *Clock) NowNano() int64 {
+	if w := verifWall(); w != 0 {
+		return w - c.Start.UnixNano()
+	}
 	return time.Since(c.Start).Nanoseconds()
 }
 
